@@ -113,7 +113,8 @@ LITERALS_2 = [_lit("'it''s'", "it's"), _lit('"q""r"', 'q"r'), _lit("'x''\"y'", '
               _lit('.5e1', 5.0), _lit('.25E-2', 0.0025), _lit('5.e1', 50.0), _lit('1.5e+300', 1.5e300)]
 
 
-KEYWORD_PREFIXES = ['p', 'div', 'and', 'or', 'mod', 'eq', 'to', 'union', 'is', 'idiv', 'except', 'lt']
+KEYWORD_PREFIXES = ['p', 'div', 'and', 'or', 'mod', 'eq', 'to', 'union', 'is', 'idiv', 'except', 'lt', 'if', 'for', 'some', 'every',
+                    'let', 'instance', 'treat', 'cast', 'castable', 'return', 'in']
 NAMESPACES = {k: 'http://example.com/ns/' + k for k in KEYWORD_PREFIXES}
 
 
